@@ -299,4 +299,163 @@ theorem gops_feedLastGop (g : T) (h : WF g) (item : Bytes) :
         simp [this]
       rw [e]; simp only [hc, if_false]; exact ⟨h, trivial⟩
 
+/-! ### the whole `Feed` as a step on the queue of GOPs -/
+
+/-- what `Feed` does to the queue of cached GOPs (oldest first) -/
+def specFeed (gopNum cap : Nat) (G : List (List Bytes)) (hdrChanged : Bool) (isHdr key : Bool) (item : Bytes) :
+    List (List Bytes) :=
+  if isHdr then (if hdrChanged then [] else G)
+  else if gopNum = 0 then G
+  else if key then (if G.length = gopNum then G.tail else G) ++ [[item]]
+  else match G.getLast? with
+    | none => G
+    | some lastG => if lastG.length < cap ∨ cap = 0 then G.dropLast ++ [lastG ++ [item]] else G
+
+theorem allGopData_eq (g : T) : allGopData g = (gops g).flatten := by
+  simp [allGopData, gops, List.flatMap]
+
+theorem gops_reset (g : T) (h : WF g) : gops ({ g with first := 0, last := 0 } : T) = [] := by
+  have := h.size
+  simp [gops, gopCount]
+
+theorem set_last_eq {α} (l : List α) (x : α) (h : l ≠ []) (v : α) (hv : l.getLast? = some x) :
+    l.set (l.length - 1) v = l.dropLast ++ [v] := by
+  induction l with
+  | nil => exact absurd rfl h
+  | cons a as ih =>
+    cases as with
+    | nil => simp
+    | cons b bs =>
+      have hne : (b :: bs) ≠ [] := by simp
+      have hv' : (b :: bs).getLast? = some x := by simpa [List.getLast?_cons_cons] using hv
+      have := ih hne hv'
+      simp only [List.length_cons] at this ⊢
+      simp only [List.dropLast_cons₂, List.cons_append]
+      have e : bs.length + 1 + 1 - 1 = (bs.length + 1 - 1) + 1 := by omega
+      rw [e, List.set_cons_succ, this]
+
+theorem wf_congr {g g' : T} (hr : g'.ring = g.ring) (hf : g'.first = g.first) (hl : g'.last = g.last)
+    (hs : g'.gopSize = g.gopSize) (h : WF g) : WF g' :=
+  ⟨by rw [hs]; exact h.size, by rw [hr, hs]; exact h.len, by rw [hf, hs]; exact h.first, by rw [hl, hs]; exact h.last⟩
+
+theorem gops_congr {g g' : T} (hr : g'.ring = g.ring) (hf : g'.first = g.first) (hl : g'.last = g.last)
+    (hs : g'.gopSize = g.gopSize) : gops g' = gops g := by
+  simp [gops, gopCount, gopDataAt, hr, hf, hl, hs]
+
+/-- storing a sequence header: the cached GOPs are dropped iff its content changed -/
+theorem gops_header (g g1 g2 : T) (h : WF g) (changed : Bool)
+    (hg1 : g1 = if changed then { g with first := 0, last := 0 } else g)
+    (hr : g2.ring = g1.ring) (hf : g2.first = g1.first) (hl : g2.last = g1.last) (hs : g2.gopSize = g1.gopSize)
+    (hc : g2.cap = g1.cap) :
+    WF g2 ∧ g2.gopSize = g.gopSize ∧ g2.cap = g.cap ∧ gops g2 = if changed then [] else gops g := by
+  cases changed with
+  | true =>
+    simp only [if_true] at hg1
+    have hw1 : WF g1 := by rw [hg1]; exact ⟨h.size, h.len, h.size, h.size⟩
+    refine ⟨wf_congr hr hf hl hs hw1, by rw [hs, hg1], by rw [hc, hg1], ?_⟩
+    rw [gops_congr hr hf hl hs, hg1]; simp; exact gops_reset g h
+  | false =>
+    simp only [Bool.false_eq_true, if_false] at hg1
+    subst hg1
+    exact ⟨wf_congr hr hf hl hs h, hs, hc, by rw [gops_congr hr hf hl hs]; simp⟩
+
+/-- `GopCache.Feed` refines `specFeed` on the queue of GOPs and keeps the ring well-formed -/
+theorem gops_feed (g : T) (h : WF g) (typ : Nat) (payload item : Bytes) :
+    WF (feed g typ payload item).1 ∧ (feed g typ payload item).1.gopSize = g.gopSize ∧
+    (feed g typ payload item).1.cap = g.cap ∧
+    gops (feed g typ payload item).1 =
+      specFeed (g.gopSize - 1) g.cap (gops g)
+        ((typ == 8 && Classify.isAacSeqHeader typ payload && (match g.ashPayload with | some o => o != payload | none => false)) ||
+         (typ == 9 && Classify.isVideoKeySeqHeader typ payload && (match g.vshPayload with | some o => o != payload | none => false)))
+        (typ == 18 || (typ == 8 && Classify.isAacSeqHeader typ payload) || (typ == 9 && Classify.isVideoKeySeqHeader typ payload))
+        (Classify.isVideoKeyNalu typ payload) item := by
+  unfold feed
+  by_cases h18 : (typ == 18) = true
+  · have t18 : typ = 18 := by simpa using h18
+    subst t18
+    simp only [specFeed]
+    exact ⟨h, rfl, rfl, by simp⟩
+  · simp only [h18, if_false, Bool.false_eq_true, Bool.false_or]
+    by_cases ha : (typ == 8 && Classify.isAacSeqHeader typ payload) = true
+    · have t8 : typ = 8 := by
+        have := ha; simp only [Bool.and_eq_true, beq_iff_eq] at this; exact this.1
+      have h9 : (typ == 9) = false := by simp [t8]
+      simp only [ha, if_true, Bool.true_or, specFeed, Bool.true_and, h9, Bool.false_and, Bool.or_false]
+      cases hp : g.ashPayload with
+      | none =>
+        simp only [hp]
+        refine ⟨wf_congr (g := g) rfl rfl rfl rfl h, by first | rfl | trivial, by first | rfl | trivial, ?_⟩
+        refine (gops_congr (g := g) ?_ ?_ ?_ ?_).trans ?_ <;> first | rfl | simp
+      | some old =>
+        by_cases hne : (old != payload) = true
+        · simp only [hp, hne, if_true]
+          have hw0 : WF ({ g with first := 0, last := 0 } : T) := ⟨h.size, h.len, h.size, h.size⟩
+          refine ⟨wf_congr (g := { g with first := 0, last := 0 }) rfl rfl rfl rfl hw0, by first | rfl | trivial,
+            by first | rfl | trivial, ?_⟩
+          refine (gops_congr (g := { g with first := 0, last := 0 }) ?_ ?_ ?_ ?_).trans ?_
+          · rfl
+          · rfl
+          · rfl
+          · rfl
+          · first | (rw [gops_reset g h]; done) | (rw [gops_reset g h]; simp)
+        · simp only [hp, hne, if_false, Bool.false_eq_true]
+          refine ⟨wf_congr (g := g) rfl rfl rfl rfl h, by first | rfl | trivial, by first | rfl | trivial, ?_⟩
+          refine (gops_congr (g := g) ?_ ?_ ?_ ?_).trans ?_ <;> first | rfl | simp
+    · simp only [ha, if_false, Bool.false_eq_true, Bool.false_or]
+      by_cases hv : (typ == 9 && Classify.isVideoKeySeqHeader typ payload) = true
+      · simp only [hv, if_true, specFeed, Bool.true_and]
+        cases hp : g.vshPayload with
+        | none =>
+          simp only [hp]
+          refine ⟨wf_congr (g := g) rfl rfl rfl rfl h, by first | rfl | trivial, by first | rfl | trivial, ?_⟩
+          refine (gops_congr (g := g) ?_ ?_ ?_ ?_).trans ?_ <;> first | rfl | simp
+        | some old =>
+          by_cases hne : (old != payload) = true
+          · simp only [hp, hne, if_true]
+            have hw0 : WF ({ g with first := 0, last := 0 } : T) := ⟨h.size, h.len, h.size, h.size⟩
+            refine ⟨wf_congr (g := { g with first := 0, last := 0 }) rfl rfl rfl rfl hw0, by first | rfl | trivial,
+              by first | rfl | trivial, ?_⟩
+            refine (gops_congr (g := { g with first := 0, last := 0 }) ?_ ?_ ?_ ?_).trans ?_
+            · rfl
+            · rfl
+            · rfl
+            · rfl
+            · first | (rw [gops_reset g h]; done) | (rw [gops_reset g h]; simp)
+          · simp only [hp, hne, if_false, Bool.false_eq_true]
+            refine ⟨wf_congr (g := g) rfl rfl rfl rfl h, by first | rfl | trivial, by first | rfl | trivial, ?_⟩
+            refine (gops_congr (g := g) ?_ ?_ ?_ ?_).trans ?_ <;> first | rfl | simp
+      · simp only [hv, if_false, Bool.false_eq_true, specFeed]
+        by_cases hsz : g.gopSize > 1
+        · have hz : ¬ (g.gopSize - 1 = 0) := by omega
+          simp only [hsz, if_true, hz, if_false]
+          by_cases hk : Classify.isVideoKeyNalu typ payload = true
+          · simp only [hk, if_true]
+            obtain ⟨hw, hg⟩ := gops_feedNewGop g h (by omega) item
+            refine ⟨hw, ?_, ?_, ?_⟩
+            · simp only [feedNewGop, setRing]; split <;> rfl
+            · simp only [feedNewGop, setRing]; split <;> rfl
+            · rw [hg, gops_length]
+          · simp only [hk, if_false, Bool.false_eq_true]
+            obtain ⟨hw, hg⟩ := gops_feedLastGop g h item
+            refine ⟨hw, ?_, ?_, ?_⟩
+            · simp only [feedLastGop, setRing]; split <;> (try split) <;> rfl
+            · simp only [feedLastGop, setRing]; split <;> (try split) <;> rfl
+            · rw [hg]
+              by_cases hc0 : gopCount g = 0
+              · have : gops g = [] := List.eq_nil_of_length_eq_zero (by rw [gops_length]; exact hc0)
+                simp [hc0, this]
+              · have hne : gops g ≠ [] := by
+                  intro e; have := congrArg List.length e; rw [gops_length] at this; exact hc0 this
+                have hlast : (gops g).getLast? = some (gopDataAt g (gopCount g - 1)) := by
+                  rw [List.getLast?_eq_getElem?, gops_length, gops_get?]
+                  have : gopCount g - 1 < gopCount g := by omega
+                  simp [this]
+                simp only [hc0, if_false, hlast]
+                split
+                · rw [← gops_length, set_last_eq _ _ hne _ hlast]
+                · rfl
+        · have hz : g.gopSize - 1 = 0 := by omega
+          simp only [hsz, if_false, hz, if_true]
+          exact ⟨h, trivial, trivial, trivial⟩
+
 end Lal.GopCache
